@@ -423,6 +423,39 @@ Definition e2eCallAndWait (ctx : option N) : proc :=
 Definition connClose : proc :=
   set_status FStClosed (Acq LWire LW (SetF FWClosed true (Rel LWire (Ret ONil)))).
 
+(* Conn.reconnect: takes wireConnMu, flags the connection as reconnecting, closes the old wire
+   connection and redials in retry.Do - dial, on failure `return c.state.Is(connStatusClosed)`,
+   back-off sleep, again - with wireConnMu HELD all the time.  The polling loop is the level guard
+   on the Closed status (latency: at most one dial attempt plus one back-off sleep); a successful
+   dial is the signal FDialOk.  It waits while holding wireConnMu: not wf, allowed by lwf
+   (wireConnMu is not a fast lock) - everybody who wants wireConnMu depends on the loop's exit. *)
+Definition FDialOk : flag := 20.
+Definition reconnectHold : proc :=
+  Acq LWire LW (IfF FStClosed (Rel LWire (Ret OConnClosed))
+    (set_status FStReconnecting (SetF FWClosed true
+      (Alt (GFlag FStClosed) (Rel LWire (Ret OConnClosed))
+        (Alt (GFlag FDialOk)
+             (IfF FStClosed (Rel LWire (Ret OConnClosed))                     (* CompareAndSwapNewGeneration fails: discard *)
+                            (SetF FWClosed false (set_status FStConnected (Rel LWire (Ret ONil)))))
+             Block))))).
+(* Conn.Close with the two steps in the other order (lock first, then the status swap): the redial
+   loop can then never see Closed *)
+Definition connClose_lockfirst : proc :=
+  Acq LWire LW (set_status FStClosed (SetF FWClosed true (Rel LWire (Ret ONil)))).
+
+(* Upstream.Close whose drain loop spends until tL (absolute) inside sent.List / waiting for u.mu
+   between its deadline check and cond.Wait(): the wakers take receivedAck.L, which the waiter
+   holds in that span, so their Broadcast is delivered once Wait() has released it: after tL the
+   wait is the same level-guarded select as in upClose.  (A waker that Broadcasts WITHOUT the lock
+   in that span wakes nobody: the clock guards then are not guards at all - that is upClose_F7.) *)
+Definition upClose_slow (ctx : option N) (cto tL : N) (id : N) : proc :=
+  SetF FDraining true (upFlush ctx (fun _ =>
+    let next := upCloseRequest ctx id in
+    Alt (GTime tL)
+        (Alt (GFlag FAcked) next (Alt (GFlag FSctx) next (Alt (GTime cto) next (tg ctx next))))
+        Block)).
+Definition upClose_barewake := upClose_F7.
+
 (* Upstream.processResult AS IT IS (F13 repaired, 611d2de): looks the waiter up and deletes the
    entry under the stream lock, releases, then sends into the waiter's ONE-SLOT channel, which
    receives at most this one value (the entry is gone): the send never waits *)
@@ -459,7 +492,10 @@ Inductive scen :=
 | ScUpClose | ScDownClose | ScConnClose
 | ScMetaAfterClose      (* a request after Close (former F5) *)
 | ScStateAfterLateAck   (* State() after an ack that arrived after the ack timeout (former F13) *)
-| ScCloseWhilePending.  (* Conn.Close while a request of another goroutine is in flight *)
+| ScCloseWhilePending   (* Conn.Close while a request of another goroutine is in flight *)
+| ScCloseDuringOutage   (* Conn.Close while the connection is reconnecting and every redial fails *)
+| ScUpCloseDuringOutage (* Upstream.Close during such an outage, then Conn.Close *)
+| ScUpCloseSlowList.    (* Upstream.Close, ack withheld, both deadlines expire while sent.List is in progress *)
 Inductive beh := BAnswer | BDelay | BDrop | BMisaddr | BDisconnect.
 
 Record params := mkPrm {
@@ -477,7 +513,8 @@ Definition scen_eqb (a b : scen) : bool :=
   | ScReadMeta, ScReadMeta | ScMetadata, ScMetadata | ScCall, ScCall | ScCallWait, ScCallWait
   | ScUpClose, ScUpClose | ScDownClose, ScDownClose | ScConnClose, ScConnClose
   | ScMetaAfterClose, ScMetaAfterClose | ScStateAfterLateAck, ScStateAfterLateAck
-  | ScCloseWhilePending, ScCloseWhilePending => true
+  | ScCloseWhilePending, ScCloseWhilePending | ScCloseDuringOutage, ScCloseDuringOutage
+  | ScUpCloseDuringOutage, ScUpCloseDuringOutage | ScUpCloseSlowList, ScUpCloseSlowList => true
   | _, _ => false
   end.
 
@@ -499,10 +536,13 @@ Definition scen_procs (sc : scen) (pr : params) : list proc :=
   | ScMetaAfterClose => [connRequest 2 ctx 1]
   | ScStateAfterLateAck => [processResult; upState]
   | ScCloseWhilePending => [connRequest 2 (Some (p_other pr)) 1; connClose]
+  | ScCloseDuringOutage => [reconnectHold; connClose]
+  | ScUpCloseDuringOutage => [reconnectHold; upClose ctx (p_cto pr) 1]
+  | ScUpCloseSlowList => [upClose_slow ctx (p_cto pr) (p_other pr) 1]      (* p_other = duration of List *)
   end.
 (* which of them is the call under test *)
 Definition scen_target (sc : scen) : nat :=
-  match sc with ScStateAfterLateAck | ScCloseWhilePending => 1%nat | _ => 0%nat end.
+  match sc with ScStateAfterLateAck | ScCloseWhilePending | ScCloseDuringOutage | ScUpCloseDuringOutage => 1%nat | _ => 0%nat end.
 
 (* what completes exchange number pos of the scenario *)
 Definition done_flag (sc : scen) (pos : N) : flag :=
@@ -526,6 +566,9 @@ Definition scen_flags (sc : scen) (pos : N) : list flag :=
   | ScFlush => [FStConnected; FFlushReady; FFlushRes]
   | ScWrite => [FStConnected; FWriteRecv]
   | ScDownClose => [FStConnected; FFinalAck]
+  | ScCloseDuringOutage => [FStConnected]
+  | ScUpCloseDuringOutage => [FStConnected; FFlushReady; FFlushRes]
+  | ScUpCloseSlowList => [FStConnected; FFlushReady; FFlushRes; FReply 1]
   | _ => [FStConnected]
   end.
 
@@ -575,6 +618,7 @@ Definition predict (sc : scen) (b : beh) (pos : N) (pr : params) : outcome * opt
 Definition governing_bound (sc : scen) (b : beh) (pr : params) : N :=
   match sc with
   | ScConnClose | ScStateAfterLateAck => 0
+  | ScUpCloseSlowList => N.max (p_ctx pr) (p_other pr)   (* the storage call itself cannot be interrupted *)
   | ScCloseWhilePending => p_ctx pr      (* property text: Close returns by ITS context *)
   | _ => p_ctx pr
   end.
@@ -598,12 +642,14 @@ Definition acceptable (sc : scen) (b : beh) (pos : N) (m : outcome) : list outco
       (* the drain ends at the deadline; the close request is then written and answered while
          ctx.Done() is ready too: select may take either *)
       match pos with 0 => [m; ONil; OCtx] | _ => [m] end
+  | _, ScUpCloseSlowList => [m; ONil; OCtx]
+  | _, ScUpCloseDuringOutage => [m; ONil; OCtx; OConnClosed; OStreamClosed; OOther]   (* races with the stream noticing the outage *)
   | _, _ => [m]
   end.
 
 Definition expected_follow (sc : scen) (b : beh) : list outcome :=
   match sc, b with
-  | ScConnClose, _ | ScCloseWhilePending, _ | ScMetaAfterClose, _ => [OConnClosed]   (* a request after Close fails at once *)
+  | ScConnClose, _ | ScCloseWhilePending, _ | ScMetaAfterClose, _ | ScCloseDuringOutage, _ => [OConnClosed]   (* a request after Close fails at once *)
   | _, _ => [ONil]
   end.
 
@@ -627,7 +673,7 @@ Definition blk_ok (c : blk_case) : bool :=
   && match b_scen c with
      | ScMetaAfterClose => outcome_eqb (b_class c) OConnClosed && (b_ms c <=? b_slack c)
                            && outcome_eqb (b_follow c) OConnClosed && (b_follow_ms c <=? b_slack c)
-     | ScConnClose | ScCloseWhilePending => outcome_eqb (b_follow c) OConnClosed && (b_follow_ms c <=? b_slack c)
+     | ScConnClose | ScCloseWhilePending | ScCloseDuringOutage => outcome_eqb (b_follow c) OConnClosed && (b_follow_ms c <=? b_slack c)
      | _ => outcome_eqb (b_follow c) ONil
      end.
 
